@@ -45,7 +45,7 @@ func peerTok(p string) int {
 }
 
 func runC12(o *out, r *rng, thorough bool, replay string) {
-	o.Rule = "filter: EXHAUSTIVE enumeration of all operation sequences up to a bound over an alphabet of 8 broadcasts (2 instances x 2 slots x 2 signatures) and 4 receives (2 peers, one ordered below and one above the local peer id) on the real equivocationFilter (accessor) vs the model, plus random long histories; host: random histories of (conflicting) broadcast requests, rebroadcasts, crashes before/after the WAL append, restarts and purges over the real filter + real WAL; non-trivial = history contains a conflicting request"
+	o.Rule = "filter: EXHAUSTIVE enumeration of all operation sequences up to a bound over an alphabet of 8 broadcasts (2 instances x 2 slots x 2 signatures) and 4 receives (2 peers, one ordered below and one above the local peer id) on the real equivocationFilter (accessor) vs the model, plus random long histories; host: random histories of (conflicting) broadcast requests, rebroadcasts, crashes before/after the WAL append, restarts and purges over the real filter + real WAL; non-trivial = history contains a conflicting request; restarts of the real runner may leave a torn record at the end of the newest log file (crash inside a WAL append)"
 	local := "peerM"
 	var alphabet []string
 	type op struct {
